@@ -19,7 +19,8 @@ def leaf_correspondence(ctx):
         keep = cs[ctx.rng.randrange(step)::step]
         # the two cases that carry the known symlink findings and the root records are always in
         keep += [c for c in cs if c[4] in (b'/' * 13, b'/.b')][:6] + [c for c in cs if c[1]][:6]
-        cs = keep
+        dense = [c for c in cs if (c[2] or b'')[:1] == b'q']
+        cs = keep + ctx.rng.sample(dense, min(len(dense), 400))
     texts = [mod.render(c) for c in cs]
     for c in cs:
         ctx.case(('rrplace', c[0], c[1], len(c[2] or b''), len(c[4] or b''), c[5], c[6], c[7]), True)
